@@ -181,7 +181,10 @@ pub fn all_cells(req_a: &str, req_b: &str) -> Vec<Cell> {
             }
             out.push(Cell { mode: "run".into(), require: req.clone(), no_std: *ns, target: String::new(), peer: peer.into(), input: "present".into(), spelling: "absolute".into(), fault: None, flags_last: false });
         }
-        for target in ["O1-absent", "O2-existing", "O2b-existing-longer", "O3-parent-missing", "O4-is-directory", "O5-component-is-file", "O6-dev-full"] {
+        for target in ["O1-absent", "O2-existing", "O2b-existing-longer", "O3-parent-missing", "O4-is-directory", "O5-component-is-file", "O6-dev-full", "O9-dev-null"] {
+            if target == "O9-dev-null" && (req.is_some() || *ns) {
+                continue;
+            }
             out.push(Cell { mode: "file".into(), require: req.clone(), no_std: *ns, target: target.into(), peer: String::new(), input: "present".into(), spelling: "absolute".into(), fault: None, flags_last: false });
         }
         out.push(Cell { mode: "stdout".into(), require: req.clone(), no_std: *ns, target: String::new(), peer: String::new(), input: "present".into(), spelling: "absolute".into(), fault: None, flags_last: false });
@@ -447,6 +450,7 @@ impl Runner {
                             let _ = std::fs::write(&p, b"i am a file\n");
                             format!("{}/prog.lua", p)
                         }
+                        "O9-dev-null" => "/dev/null".to_string(),
                         _ => "/dev/full".to_string(),
                     };
                     args.push("-o".into());
@@ -553,7 +557,7 @@ impl Runner {
         }
         tree(Path::new(root), Path::new(root), &mut obs.tree_after);
         if let Some(t) = &target_path {
-            if t != "/dev/full" && Path::new(t).is_file() {
+            if t != "/dev/full" && t != "/dev/null" && Path::new(t).is_file() {
                 obs.target_bytes = std::fs::read(t).ok();
             }
         }
@@ -637,6 +641,16 @@ pub fn judge(cell: &Cell, exp: &Expected, obs: &ProcObs, root: &str, preamble: &
         return CellVerdict { violations: vs, observations: notes };
     }
 
+    if cell.mode == "file" && cell.target == "O9-dev-null" {
+        // a writable path that is not a regular file (the way to compile without keeping the output)
+        if exp.accepted && exit != 0 {
+            vs.push(v("exit-status", "nonzero-on-success", format!("[{}] compilation succeeded and /dev/null is writable, but the exit status is {}", label, exit)));
+        }
+        if !exp.accepted && exit == 0 {
+            vs.push(v("exit-status", "zero-on-rejected", format!("[{}] the program is rejected but the exit status is 0", label)));
+        }
+        return CellVerdict { violations: vs, observations: notes };
+    }
     if let Some(fault) = &cell.fault {
         if fault.on == "target" && !fault.transient() {
             // a device error or a full disk while writing: the property quantifies over output *paths*, not over
@@ -851,7 +865,34 @@ pub fn many_errors_program(n: usize, kind: usize) -> Program {
     Program { files, main, label: format!("many-errors:{}x{}", n, name), std_free: false }
 }
 
+/// Small rejected programs, one kind of error each: every kind goes through the driver contract.
+pub const SINGLE_ERRORS: &[(&str, &str)] = &[
+    ("value-dependency-cycle", "za :: zb\nzb :: za\n"),
+    ("mutually-recursive-functions", "ze :: fn n -> bool do\n    if n == 0 do ret true end\n    ret zo(n - 1)\nend\nzo :: fn n -> bool do\n    if n == 0 do ret false end\n    ret ze(n - 1)\nend\n"),
+    ("self-initialised-global", "zt := zt + 1\n"),
+    ("type-mismatch", "zx: int = \"s\"\n"),
+    ("unresolved-name", "zy :: zz_nope\n"),
+    ("collision-with-preamble-name", "print :: fn do end\n"),
+    ("duplicate-definition", "zd :: 1\nzd :: 2\n"),
+    ("missing-import", "use zz_missing_module\n"),
+    ("from-import-of-missing-name", "from zz_missing_module use nothing\n"),
+    ("blob-with-unknown-field-type", "Zb :: blob { a: Zork }\n"),
+    ("syntax-error", "zs :: )\n"),
+    ("conflict-marker", "<<<<<<< HEAD\n"),
+];
+
+pub fn single_error_program(kind: usize) -> Program {
+    let main = format!("{}/one/main.sy", SIM_ROOT);
+    let (name, unit) = SINGLE_ERRORS[kind % SINGLE_ERRORS.len()];
+    let mut files = BTreeMap::new();
+    files.insert(main.clone(), format!("{}start :: fn do\nend\n", unit));
+    Program { files, main, label: format!("single-error:{}", name), std_free: false }
+}
+
 pub fn sample_program(seed: u64, index: u64, corpus: &Corpus) -> Program {
+    if index % 10 == 7 {
+        return single_error_program((index / 10) as usize);
+    }
     // stratified: every tenth program is rejected with a chosen number of errors
     if index % 10 == 3 {
         let k = (index / 10) as usize;
@@ -1226,6 +1267,17 @@ fn c16_observe(runner: &Runner, prog: &Program, root: &str, rep: usize) -> Strin
             let _ = std::os::unix::fs::symlink(&real, &req_dir);
         }
     }
+    // an empty directory named like a module, next to it (an assets folder, a build artefact): environment
+    for p in prog.files.keys() {
+        let real = format!("{}{}", root, p.strip_prefix(SIM_ROOT).unwrap_or(p));
+        if let Some(dir) = real.strip_suffix(".sy") {
+            if rep % 4 == 3 {
+                let _ = std::fs::create_dir_all(dir);
+            } else {
+                let _ = std::fs::remove_dir(dir);
+            }
+        }
+    }
     let env: Vec<(String, String)> = ENVS[rep % ENVS.len()].iter().map(|(k, v)| (k.to_string(), v.to_string())).collect();
     if rep % 3 == 2 {
         // history through the file system: the output path still holds what an earlier compilation
@@ -1310,7 +1362,8 @@ pub fn run_c16_processes(tier: &str, batch_seed: u64) -> LayerBResult {
             while i < n_programs {
                 let seed = splitmix64(batch_seed ^ tag("C16-processes") ^ splitmix64(i));
                 let mut stats = crate::props::Stats::default();
-                let (sc, c) = crate::worker::gen_screened(seed, &corpus, Bias::MultiError, &mut stats);
+                // half of the inputs are biased to several errors, half to accepted programs (their Lua bytes are compared)
+                let (sc, c) = crate::worker::gen_screened(seed, &corpus, if i % 2 == 0 { Bias::MultiError } else { Bias::Sink }, &mut stats);
                 let mut files = c.files.clone();
                 for p in &c.io_errors {
                     files.remove(p);
